@@ -100,12 +100,17 @@ fn replay_case(path: &str, out: &mut impl Write) {
             }
             set_capture(true);
             let c2 = cfg0.clone();
+            // the second execution runs on a "slow machine" (see c01_main)
+            if i == 1 {
+                common::SLOW_PCT.store(160, std::sync::atomic::Ordering::Relaxed);
+            }
             let _ = catch_unwind(AssertUnwindSafe(|| {
                 let mut case = Case::new(c2);
                 for c in &first {
                     case.ctl(c);
                 }
             }));
+            common::SLOW_PCT.store(0, std::sync::atomic::Ordering::Relaxed);
             set_capture(false);
             for l in take_log() {
                 writeln!(out, "{l}").unwrap();
@@ -298,9 +303,15 @@ fn c01_main(tier: &str, seed: u64, cases: Option<usize>, out_path: &str, child: 
             writeln!(out, "{l}").unwrap();
         }
         writeln!(out, "TWIN same-process").unwrap();
+        // the fs / io_uring family repeats on a "slow machine": 1.6 ticks of real time per step
+        let slow = fams[*fi].name == "c01_fs" || n % 8 == 3;
+        if slow {
+            common::SLOW_PCT.store(160, std::sync::atomic::Ordering::Relaxed);
+        }
         for l in case_lines(*k, &fams[*fi], *s) {
             writeln!(out, "{l}").unwrap();
         }
+        common::SLOW_PCT.store(0, std::sync::atomic::Ordering::Relaxed);
         for (c, tr) in child_traces.iter().enumerate() {
             writeln!(out, "TWIN process-{c}").unwrap();
             match tr.get(n) {
